@@ -139,14 +139,23 @@ def e1_sentinel(ctx):
         return d is not None and _is_dict_ctor(d)
 
     def values_only(callee, pname):
+        """the callee never looks at the keys of its dict parameter: it is only used as `p.values()`, `len(p)`,
+        or `for k, x in p.items()` with `k` never read."""
         uses = [n for n in au.walk(callee) if isinstance(n, ast.Name) and n.id == pname and isinstance(n.ctx, ast.Load)]
-        if not uses:
-            return True
         for u in uses:
             p = au.parent(u)
-            if not (isinstance(p, ast.Attribute) and p.attr == "values" and isinstance(au.parent(p), ast.Call)
-                    and au.parent(p).func is p):
-                return False
+            if isinstance(p, ast.Call) and au.call_tail(p) == "len" and p.args and p.args[0] is u:
+                continue
+            if isinstance(p, ast.Attribute) and isinstance(au.parent(p), ast.Call) and au.parent(p).func is p:
+                if p.attr == "values":
+                    continue
+                lp = au.parent(au.parent(p))
+                if p.attr == "items" and isinstance(lp, ast.For) and lp.iter is au.parent(p) and isinstance(lp.target, ast.Tuple) \
+                        and len(lp.target.elts) == 2 and isinstance(lp.target.elts[0], ast.Name):
+                    key = lp.target.elts[0].id
+                    if not any(isinstance(x, ast.Name) and x.id == key and isinstance(x.ctx, ast.Load) for x in au.walk(callee)):
+                        continue
+            return False
         return True
 
     def classify(n, via):
@@ -330,11 +339,15 @@ def f1_build_path(ctx):
         if isinstance(st, ast.For) and any(is_append(c, "vertices") for c in au.calls(st)) \
                 and any(is_append(c, "edges") for c in au.calls(st)):
             outer = st
-    if outer is None or not isinstance(outer.target, ast.Name):
+    ltarget = outer.target if outer is not None else None
+    if isinstance(ltarget, ast.Tuple) and len(ltarget.elts) == 2 and isinstance(outer.iter, ast.Call) \
+            and au.call_tail(outer.iter) == "items":
+        ltarget = ltarget.elts[1]
+    if outer is None or not isinstance(ltarget, ast.Name):
         ctx.fail("C09-F1", site, "path loop of build_path not found",
                  "no top-level `for l in ...` loop appending to both .vertices and .edges of the path mesh")
         return
-    lname = outer.target.id
+    lname = ltarget.id
     recv = {au.src(c.func.value.value) for c in au.calls(outer) if is_append(c, "vertices") or is_append(c, "edges")}
     if len(recv) != 1:
         ctx.fail("C09-F1", site, "vertices and edges of build_path are appended to different meshes", str(sorted(recv)))
